@@ -8,7 +8,8 @@ from common import Ctx, driver_batch, fmt, rel_close
 import uni_common as U
 
 PROPERTY = "C07"
-LEAN_MODULES = ["Proofs.C07", "Proofs.C07.Round"]
+LEAN_MODULES = ["Proofs.C07", "Proofs.C07.Round", "Proofs.C07.Wei", "Proofs.C07.Maximal", "Proofs.C07.Token", "Proofs.C07.RoundTrip",
+                "Proofs.C07.RoundTripMarket", "Proofs.C07.Ticks"]
 RULE = ("random (sqrt price, tick pair, decimals in {6,8,18}^2, offered amounts 0..1e12 tokens) with a boundary stream (price exactly on a "
         "range bound, ranges touching MIN/MAX tick, the full range at every spacing, ranges and prices beyond |tick| = 2^19, equal ticks, reversed "
         "ticks, zero amounts) and a magnitude stream (1e9..1e12 tokens of an 18-decimal token into 1..200-tick ranges, where liquidity has 36..50 "
@@ -82,6 +83,12 @@ def gen_case(rng, g, stream="random"):
             return Decimal(rng.randint(1, 999)) / Decimal(10 ** rng.choice((6, 8, 18))), "tiny"
         if k < 0.3:
             return Decimal(10 ** 12), "max"
+        if k < 0.33:
+            # more than 35 significant digits, just below a whole number of wei: `amount * 10**decimals` is ROUNDED by the context before
+            # int() truncates it (theorem C07_toWei_rounds_up_beyond35: to_wei(Decimal('0.' + '9'*37), 6) = 1000000)
+            whole = rng.choice((0, rng.randint(0, 10 ** 6)))
+            tail = "9" * rng.randint(30, 45) if rng.random() < 0.6 else "".join(rng.choice("0123456789") for _ in range(rng.randint(36, 45)))
+            return Decimal(f"{whole}.{tail}"), "long"
         e = rng.randint(-6, 12)
         m = Decimal(rng.randint(1, 10 ** rng.randint(1, 24)))
         v = (m / Decimal(10 ** (len(str(m)) - 1))) * (Decimal(10) ** e)
@@ -224,6 +231,14 @@ def check_case(ctx, lm, core, pool_cls, tok_cls, c, reqs):
             slack = Fraction(1)
         if not (0 <= real - L <= slack):
             ctx.violate("maximal", f"liquidity {L} is not maximal: real-valued maximum {float(real):.6g}, allowed slack {float(slack):.6g}", rep)
+        # --- one more unit of liquidity over-spends (C07_succ_overspends): L+1 needs more token1 than offered, or more token0 than
+        #     offered0 * (1 - 2^96/(lo*sb)) -- the factor is what the floor of mul_div(sqrtA, sqrtB, 2**96) loses
+        n0, n1 = closed_form(s, sa, sb, L + 1, 0, 0)
+        lo_leg = sa if s <= sa else s
+        over0 = n0 > w0 * (1 - Fraction(Q, lo_leg * sb))
+        over1 = n1 > w1
+        if not (over0 if s <= sa else ((over0 or over1) if s < sb else over1)):
+            ctx.violate("maximal.succ", f"liquidity {L} + 1 would still fit the offer: needs ({float(n0):.6g}, {float(n1):.6g}) wei of ({w0}, {w1})", rep)
         # --- closed form at 1e-30 relative
         c0f, c1f = closed_form(s, sa, sb, L, d0, d1)
         if not (rel_close(u0, c0f, TOL) and rel_close(u1, c1f, TOL)):
@@ -288,6 +303,7 @@ def market_case(ctx, w, lo, up, bo, qo, via, tag):
         rep = {"kind": "market", "pool": U.pool_json(w.pool), "fee": fee, "tick": w.tick, "lower": lo, "upper": up, "base": None if bo is None else str(bo),
                "quote": None if qo is None else str(qo), "via": via, "base_balance": str(bb), "quote_balance": str(qb), "tag": tag,
                "int_zero": [isinstance(bo, int), isinstance(qo, int)]}
+        keys_before = set(w.market.positions.keys())
         try:
             if via == "by_tick":
                 r = w.market.add_liquidity_by_tick(lo, up, bo, qo)
@@ -311,6 +327,21 @@ def market_case(ctx, w, lo, up, bo, qo, via, tag):
                             f"from the wallet (balance {bal})", rep)
             elif Fraction(Decimal(reported)) != spent and abs(Fraction(Decimal(reported)) - spent) > Fraction(1, 10 ** 5) * max(spent, 1):
                 ctx.violate(f"market.add.reported.{name}", f"the call reports {reported} {name} used, the wallet gave {float(spent)}", rep)
+        # --- round trip on the state machine (theorem C07_roundtrip_market_price): a NEW position removed with collect at the unchanged price
+        #     returns exactly the (base_used, quote_used) the add reported and the wallet is credited with exactly those
+        if r[0] not in keys_before:
+            mb, mq = w.broker.get_token_balance(w.pool.base_token), w.broker.get_token_balance(w.pool.quote_token)
+            try:
+                got = w.market.remove_liquidity(r[0])
+            except Exception as e:  # noqa: BLE001
+                ctx.violate(f"market.roundtrip.raises.{type(e).__name__}", f"remove_liquidity of the position just added ([{lo},{up}], {regime}) raised {type(e).__name__}", rep)
+                return
+            ctx.count("market_roundtrips_checked")
+            if Decimal(got[0]) != Decimal(r[1]) or Decimal(got[1]) != Decimal(r[2]):
+                ctx.violate("market.roundtrip.amounts", f"add reported ({r[1]}, {r[2]}) used; removing at the unchanged price returns ({got[0]}, {got[1]})", rep)
+            ab, aq = w.broker.get_token_balance(w.pool.base_token), w.broker.get_token_balance(w.pool.quote_token)
+            if Decimal(ab) != Decimal(mb) + Decimal(r[1]) or Decimal(aq) != Decimal(mq) + Decimal(r[2]):
+                ctx.violate("market.roundtrip.credit", f"after add ({r[1]}, {r[2]} used) and remove the wallet went ({mb}, {mq}) -> ({ab}, {aq})", rep)
 
 
 def views_stream(ctx: Ctx, rng, n):
